@@ -11,6 +11,8 @@ package common
 //@   requires forall k string :: has(observed, k) ==> observed[k] != nil
 //@   bind loop 1: name, obj
 //@   noexit loop 1 [C12]
+//@   // only "already gone" is tolerated on a delete; any other failure is recorded (and the other children are still processed)
+//@   recordfail [C12] Delete unless IsNotFound : errs
 //@   safety C13
 //@   at Delete(ri, ctx, n, opts) [C02,C06]: has(observed, name) && observed[name] == obj && n == obj.GetName()
 //@   at Delete(ri, ctx, n, opts) [C06]: obj.GetDeletionTimestamp() == nil && (desired == nil || desired[name] == nil)
@@ -53,6 +55,11 @@ package common
 //@   requires forall k string :: has(desired, k) ==> desired[k] != nil
 //@   bind loop 1: name, obj
 //@   noexit loop 1 [C12]
+//@   // tolerated races: delete of an object already gone, update of an object gone or changed meanwhile, create of an object that
+//@   // already exists; every other failure is recorded in the aggregate error (and the other children are still processed)
+//@   recordfail [C12] Delete unless IsNotFound : errs
+//@   recordfail [C12] Update unless IsNotFound, IsConflict : errs
+//@   recordfail [C12] Create unless IsAlreadyExists : errs
 //@   safety C13
 //@   let method = updateStrategy.GetMethod(client.Group, client.Kind)
 //@   let oldObj = observed[name]
